@@ -135,6 +135,24 @@ def run_case(ck, desc):
         full = dict(pvt, **dict(zip(names, dens)))
         got = np.asarray(fp.compressibility_combined_func(p, So, phi, Sw, full), dtype=float)
         ck.count("compressibility_calls")
+        if int(phi * 1e4) % 9 == 0:
+            # four different fluids evaluated from four threads at once: each answer equals the call made alone
+            import functools
+
+            groups = []
+            for k in range(4):
+                fk = dict(full)
+                fk["Bo"] = (lambda k_: (lambda x: (1 + 0.1 * k_) / inv["Bo"](x)))(k)
+                fk["Bg"] = (lambda k_: (lambda x: (1 + 0.2 * k_) / inv["Bg"](x)))(k)
+                fk["rho_o0"] = full["rho_o0"] * (1 + 0.05 * k)
+                groups.append([functools.partial(fp.compressibility_combined_func, p * (1 + 0.01 * j), So, phi, Sw, fk) for j in range(40)])
+            bad, errs, n_calls = instrument.concurrent_vs_alone(groups)
+            ck.count("concurrent_evaluations", n_calls)
+            ck.count("thread_groups")
+            for k_, i_, a, b in bad[:3]:
+                ck.violation("threads-same-value-as-the-call-made-alone", {"function": "compressibility_combined_func", "thread": k_, "n_differing": len(bad)}, desc)
+            if errs:
+                ck.violation("threads-every-call-returns", {"errors": [e[2] for e in errs[:3]]}, desc)
         ro, rg, rw = dens
         Sg = 1 - So - Sw
         bo, bg, bw = inv["Bo"](p), inv["Bg"](p), inv["Bw"](p)
